@@ -277,7 +277,150 @@ def e2_expiry(args) -> Acc:
     return acc
 
 
+# -- E2c: two component groups, changing system bounds, stored target ---------------------
+
+G_SYS = [(-200, 200, 0, 0), (-100, 100, 0, 0), (-200, 200, -60, 60)]
+G_EVENTS = (
+    [("p", g, 3, "a", None, 50, 100) for g in (1, 2)]
+    + [("p", g, 2, "b", 150, None, None) for g in (1, 2)]
+    + [("p", 1, 1, "c", -100, None, None)]
+    + [("t", 30.0), ("t", 31.0), ("s", 0), ("s", 1)]
+)
+G_EVENTS_T = G_EVENTS + [("p", 2, 1, "c", -100, None, None), ("s", 2), ("t", 1.0)]
+
+
+def e2_groups(args) -> Acc:
+    """Two component groups served by one Matryoshka (the same actors propose for both), the system bounds passed
+    with the calls change over time, and proposals are re-sent unchanged.  No state merging.  After every call
+    that carries a proposal, the stored target (get_target_power) of that group must be the target a fresh
+    instance computes from the group's live proposals under the bounds of that call; after every event the
+    recomputed target (must_return_power=True) of both groups must."""
+    import copy
+
+    tier, depth, prefix = args
+    acc = Acc()
+    events = G_EVENTS if tier == "quick" else G_EVENTS_T
+
+    def gprop(g, src, prio, pref, lo, hi, t):
+        return Proposal(
+            source_id=src, preferred_power=None if pref is None else W(pref),
+            bounds=timeseries.Bounds(None if lo is None else W(lo), None if hi is None else W(hi)),
+            component_ids=frozenset({g}), priority=prio, creation_time=t, set_operating_point=False,
+        )
+
+    def apply(st, ev):
+        m, now, si = st
+        if ev[0] == "p":
+            _, g, prio, src, pref, lo, hi = ev
+            m.calculate_target_power(frozenset({g}), gprop(g, src, prio, pref, lo, hi, now), sb(*G_SYS[si]))
+        elif ev[0] == "t":
+            now += ev[1]
+            m.drop_old_proposals(now)
+        else:
+            si = ev[1]
+        return (m, now, si)
+
+    def group_hist(hist, g):
+        return tuple(("p", e[2], e[3], e[4], e[5], e[6]) if e[0] == "p" else e for e in hist
+                     if (e[0] == "p" and e[1] == g) or e[0] == "t")
+
+    def check(st, hist):
+        m, now, si = st
+        sysb = G_SYS[si]
+        ev = hist[-1]
+        viol = []
+        for g in (1, 2):
+            live, _ = ref.live_set(group_hist(hist, g), MAX_AGE)
+            exp = target_of(live, sysb) if live else None
+            if ev[0] == "p" and ev[1] == g and live:
+                acc.clauses["stored_target_is_current_target"] += 1
+                stv = m.get_target_power(frozenset({g}))
+                stv = None if stv is None else stv.as_watts()
+                if stv != exp:
+                    viol.append(("stored_target_is_current_target", {"group": g, "stored": stv, "fresh": exp, "live": live, "system": list(sysb)}))
+            probe = copy.deepcopy(m)
+            t = probe.calculate_target_power(frozenset({g}), None, sb(*sysb), must_return_power=True)
+            target = None if t is None else t.as_watts()
+            acc.evaluations += 1
+            acc.clauses["target_depends_only_on_live_set"] += 1
+            viol += safety(sysb, target)
+            if live:
+                if target != exp:
+                    viol.append(("target_depends_only_on_live_set", {"group": g, "live": live, "after_history": target, "fresh": exp,
+                                                                     "system": list(sysb)}))
+            elif target not in (None, 0.0):
+                viol.append(("expired_proposals_stop_counting", {"group": g, "target": target}))
+        for clause, detail in viol:
+            acc.violation(Violation(clause, {"driver": "e2-groups", "history": [list(e) for e in hist]}, detail))
+        if len({e[1] for e in hist if e[0] == "p"}) == 2 and any(e[0] == "t" for e in hist):
+            acc.nontrivial += 1
+
+    def rec(st, hist):
+        if len(hist) >= depth:
+            acc.traces += 1
+            return
+        for ev in events:
+            st2 = apply((copy.deepcopy(st[0]), st[1], st[2]), ev)
+            h2 = hist + (ev,)
+            acc.transitions += 1
+            check(st2, h2)
+            if st2[1] > 2 * MAX_AGE:
+                acc.traces += 1
+                continue
+            rec(st2, h2)
+
+    st = (Matryoshka(max_proposal_age=timedelta(seconds=MAX_AGE)), 0.0, 0)
+    for ev in prefix:
+        st = apply(st, ev)
+    rec(st, tuple(prefix))
+    acc.states = acc.transitions
+    acc.outcome("e2-groups")
+    return acc
+
+
+def replay_groups(hist):
+    import copy
+
+    acc_v = []
+    m = Matryoshka(max_proposal_age=timedelta(seconds=MAX_AGE))
+    now, si = 0.0, 0
+    for k, ev in enumerate(hist):
+        if ev[0] == "p":
+            _, g, prio, src, pref, lo, hi = ev
+            pr = Proposal(source_id=src, preferred_power=None if pref is None else W(pref),
+                          bounds=timeseries.Bounds(None if lo is None else W(lo), None if hi is None else W(hi)),
+                          component_ids=frozenset({g}), priority=prio, creation_time=now, set_operating_point=False)
+            m.calculate_target_power(frozenset({g}), pr, sb(*G_SYS[si]))
+        elif ev[0] == "t":
+            now += ev[1]
+            m.drop_old_proposals(now)
+        else:
+            si = ev[1]
+    sysb = G_SYS[si]
+    ev = hist[-1]
+    for g in (1, 2):
+        gh = tuple(("p", e[2], e[3], e[4], e[5], e[6]) if e[0] == "p" else e for e in hist if (e[0] == "p" and e[1] == g) or e[0] == "t")
+        live, _ = ref.live_set(gh, MAX_AGE)
+        exp = target_of(live, sysb) if live else None
+        if ev[0] == "p" and ev[1] == g and live:
+            stv = m.get_target_power(frozenset({g}))
+            stv = None if stv is None else stv.as_watts()
+            if stv != exp:
+                acc_v.append(("stored_target_is_current_target", {"group": g, "stored": stv, "fresh": exp}))
+        probe = copy.deepcopy(m)
+        t = probe.calculate_target_power(frozenset({g}), None, sb(*sysb), must_return_power=True)
+        target = None if t is None else t.as_watts()
+        acc_v += safety(sysb, target)
+        if live and target != exp:
+            acc_v.append(("target_depends_only_on_live_set", {"group": g, "after_history": target, "fresh": exp}))
+        if not live and target not in (None, 0.0):
+            acc_v.append(("expired_proposals_stop_counting", {"group": g, "target": target}))
+    return acc_v
+
+
 def _dispatch(args):
+    if args[0] == "e2g":
+        return e2_groups(args[1:])
     if args[0] == "e3":
         return e3_shard(args[1:])
     if args[0] == "e2x":
@@ -303,13 +446,21 @@ def run(tier: str, seed: int, workers: int):
         for e1 in evs:
             for e2 in evs:
                 shards.append(("e2x", tier, si, 7 if tier == "quick" else 8, (e1, e2)))
+    gev = G_EVENTS if tier == "quick" else G_EVENTS_T
+    for e1 in gev:
+        for e2 in gev:
+            shards.append(("e2g", tier, 5 if tier == "quick" else 6, (e1, e2)))
     if seed:
         import random
 
         random.Random(seed).shuffle(shards)
     acc = pmap_acc(_dispatch, shards, workers)
     meta = {
-        "rule": "E3: 8 system-bounds shapes x all combinations of up to 3 (quick) / 4 (thorough) proposals (priorities with a tie, "
+        "rule": "E2c (groups): every sequence to depth 5 (quick) / 6 over {actor a / b proposes for component group 1 or 2, actor c for "
+        "group 1, +30 s, +31 s, the system bounds passed with the calls switch between 2-3 shapes} on ONE Matryoshka, without "
+        "state merging: after every proposal the stored target of its group, and after every event the recomputed target of both "
+        "groups, equal what a fresh instance computes from that group's live proposals under the bounds in force.  "
+        "E3: 8 system-bounds shapes x all combinations of up to 3 (quick) / 4 (thorough) proposals (priorities with a tie, "
         "preferred power and lower/upper bounds from menus on, inside and outside every interval edge, incl. None, inverted and "
         "mutually incompatible bounds); non-trivial = >= 2 proposals whose bounds conflict.  E2: BFS over histories of "
         "propose/replace (actor x 6 variants) and clock advance + drop_old_proposals (30 s, 31 s; max age 60 s) to the stated "
@@ -328,6 +479,8 @@ def run(tier: str, seed: int, workers: int):
 
 
 def replay(case: dict):
+    if case["driver"] == "e2-groups":
+        return replay_groups(tuple(tuple(e) for e in case["history"]))
     sysb = tuple(case["system"])
     if case["driver"] == "e3":
         props = [tuple(p) for p in case["proposals"]]
